@@ -3,5 +3,5 @@ CONSTANTS
   DeepAll = FALSE
   SeedKinds = {"String", "Int", "Float", "Boolean", "Enum", "Scalar"}
 SPECIFICATION Spec
-INVARIANTS SpecSelfConsistent WellTypedExact RejectsNaive RejectsSilent RejectsTooFar Emit
+INVARIANTS SpecSelfConsistent WellTypedExact RejectsNaive Emit
 CHECK_DEADLOCK FALSE
